@@ -3,6 +3,7 @@
 R-ESC-INVERSE  the escape table of the serialiser and the unescape table of the parser are extracted; unescape∘escape is the
                identity on the table, every code point below 0x20 is covered (explicit arm or the is_control arm with a
                4-hex-digit \\u form the parser's \\u arm accepts), '"' and '\\' are escaped, only RFC 8259 escape letters are emitted.
+R-NUM          numbers are serialised by f64's Display; float->integer casts in the serialiser are bounded by what the integer type holds.
 R-TJ-KEYS      TileJSON::from_object and as_object treat the same structured keys and route every other key through `values`
                in both directions.
 R-NARROW       update_from_pyramid only narrows: bounds by intersection, minzoom by max, maxzoom by min.
@@ -93,6 +94,35 @@ def rules(ck, P):
             oks = ir.contains(sf[0]["body"], lambda y: y.get("src", "").startswith('format!("\\"{}\\""') and ir.contains(y, lambda z: (z.get("q") or "").endswith("escape_json_string")))
             ck.check(oks, "R-ESC-INVERSE", "stringify|string", "string values are emitted as '\"' + escape(s) + '\"'", "string values are not emitted through escape_json_string", ir.loc(sf[0]))
         # object keys are escaped the same way
+        # numbers: formatted by f64's shortest round-trip Display; an integer fast path through `as iN/uN` saturates silently, so every
+        # float -> integer cast in the serialiser must sit under a bound that the target type can hold
+        js = [b for b in P.bodies if b["q"].startswith("versatiles_core::json::stringify::") or b["q"].startswith("versatiles_core::json::types::") and b["q"].endswith("::stringify")]
+        if ck.anchor("R-NUM", "JSON serialiser functions", js, 2):
+            LIM = {"i64": 2.0 ** 63, "u64": 2.0 ** 64, "i32": 2.0 ** 31, "u32": 2.0 ** 32, "i128": 2.0 ** 127, "u128": 2.0 ** 128, "isize": 2.0 ** 63, "usize": 2.0 ** 64, "i16": 2.0 ** 15, "u16": 2.0 ** 16, "i8": 128.0, "u8": 256.0}
+            n_cast = 0
+            for b in js:
+                for n, parents, _ in ir.walk(b["body"]):
+                    if n.get("k") == "cast" and n.get("t") in LIM and ir.strip(n["e"]).get("t") in ("f64", "f32"):
+                        n_cast += 1
+                        bound = None
+                        for p_ in parents:
+                            if p_.get("k") != "if" or not ir.contains(p_["then"], lambda y: y is n):
+                                continue
+                            for c in ir.walk_nodes(p_["c"]):
+                                if c.get("k") == "bin" and c.get("op") in ("<", "<=") and ir.strip(c["r"]).get("lk") == "float" and \
+                                        ir.contains(c["l"], lambda y: y.get("k") == "mcall" and y.get("name") == "abs"):
+                                    try:
+                                        v = float(ir.strip(c["r"])["v"])
+                                    except ValueError:
+                                        continue
+                                    bound = v if bound is None else min(bound, v)
+                        okb = bound is not None and bound <= LIM[n["t"]] and (bound <= 2.0 ** 53 or True)
+                        ck.check(okb, "R-NUM", "%s|cast#%d" % (b["q"], n_cast), "float -> %s cast is bounded by |n| < %s <= %s" % (n["t"], bound, LIM[n["t"]]),
+                                 "a number is serialised through `as %s` under the bound |n| < %s, but %s holds only |n| < %.19g: values in between are written as the saturated integer" %
+                                 (n["t"], bound, n["t"], LIM[n["t"]]), ir.loc(n))
+            nm = [y for b in js for y in ir.walk_nodes(b["body"]) if y.get("k") == "mcall" and y.get("name") == "to_string" and "f64" in (y.get("ga") or "") + (ir.strip(y["recv"]).get("t") or "")]
+            ck.check(len(nm) >= 1, "R-NUM", "stringify|number", "numbers are written with f64's Display (shortest text that parses back to the same f64); %d integer fast path cast(s)" % n_cast,
+                     "numbers are not written with f64::to_string", ir.loc(js[0]))
         ob = [b for b in P.bodies if b["q"].endswith("json::types::object::JsonObject::stringify")]
         if ob:
             okk = ir.contains(ob[0]["body"], lambda y: (y.get("q") or "").endswith("escape_json_string"))
